@@ -48,6 +48,8 @@ func generate(r *prng.R, o *hx.Out) *scenario {
 	ntx := r.Range(3, 12)
 	nSenders := r.Range(1, 3)
 	notaryShare := []int{0, 2, 5, 8}[r.Intn(4)] // out of 10
+	oracleShare := []int{0, 2, 2, 6}[r.Intn(4)] // out of 12
+	conflictShare := []int{1, 4, 4, 7}[r.Intn(4)] // out of 10
 	// a few fee levels per case so that equal priorities and near-ties are frequent
 	fpbLevels := []int64{int64(r.Intn(4)), int64(r.Intn(6)), int64(r.Range(1, 8))}
 	for i := 0; i < ntx; i++ {
@@ -66,11 +68,11 @@ func generate(r *prng.R, o *hx.Out) *scenario {
 			o.Count("tx:ordinary")
 		}
 		d.high = r.Chance(1, 8)
-		if r.Chance(1, 6) {
+		if r.Intn(12) < oracleShare {
 			d.oracle = int64(7 + r.Intn(2))
 			o.Count("tx:oracle")
 		}
-		if i > 0 && r.Chance(2, 5) {
+		if i > 0 && r.Intn(10) < conflictShare {
 			d.conflicts = pickDistinct(r, r.Range(1, 2), i)
 			o.Count("tx:conflicts")
 		}
@@ -101,7 +103,7 @@ func generate(r *prng.R, o *hx.Out) *scenario {
 		switch r.Weighted([]int{62, 10, 8, 12, b2i(sc.drift) * 8}) {
 		case 0:
 			i := r.Intn(ntx)
-			if pooledGuess[i] && r.Chance(4, 5) { // prefer transactions not tried yet
+			for tries := 0; tries < 3 && pooledGuess[i] && r.Chance(9, 10); tries++ { // prefer transactions not tried yet
 				i = r.Intn(ntx)
 			}
 			pooledGuess[i] = true
@@ -179,8 +181,17 @@ func setBalances(r *prng.R, sc *scenario, out map[payerKey]int64) {
 				sub += f
 			}
 		}
+		var mx int64
+		for _, f := range fs {
+			if f > mx {
+				mx = f
+			}
+		}
+		if sub < mx && r.Chance(3, 4) { // a balance below every single fee only produces ErrInsufficientFunds
+			sub += mx
+		}
 		var b int64
-		switch r.Intn(8) {
+		switch r.Intn(9) {
 		case 0:
 			b = all
 		case 1:
@@ -193,6 +204,8 @@ func setBalances(r *prng.R, sc *scenario, out map[payerKey]int64) {
 			b = sub + int64(r.Intn(50))
 		case 6:
 			b = fs[r.Intn(len(fs))] - int64(r.Intn(2))
+		case 7:
+			b = mx + fs[r.Intn(len(fs))] - int64(r.Intn(2))
 		default:
 			b = all * 2
 		}
